@@ -35,10 +35,13 @@ ASSUMPTIONS = ["pairs with d_min-1e-6 <= d < d_min (documented 1e-6 precision) g
                "the coordinates judged are those the objects expose (register.qubits, layout.traps_dict)"]
 TIERS = {"quick": dict(cases=6000, shards=8, case_timeout=120, shard_timeout=900),
          "thorough": dict(cases=60000, shards=16, case_timeout=120, shard_timeout=3000)}
-FLOORS = {"quick": {"must_accept_checked": 600, "must_reject_checked": 600, "culprit_sets_checked": 300,
-                    "layout_calls_checked": 400, "closure_registers_checked": 80, "devices_constructed": 100},
-          "thorough": {"must_accept_checked": 6000, "must_reject_checked": 6000, "culprit_sets_checked": 3000,
-                       "closure_registers_checked": 800, "devices_constructed": 1000}}
+FLOORS = {"quick": {"must_accept_checked": 2400, "must_reject_checked": 3000, "culprit_sets_checked": 900,
+                    "layout_calls_checked": 2400, "sequence_creations_checked": 900, "registers_at_a_limit": 700,
+                    "closure_registers_checked": 230, "devices_constructed": 290, "devices_with_undefined_limits": 120},
+          "thorough": {"must_accept_checked": 24000, "must_reject_checked": 30000, "culprit_sets_checked": 9000,
+                       "layout_calls_checked": 24000, "sequence_creations_checked": 9000, "registers_at_a_limit": 7000,
+                       "closure_registers_checked": 2300, "devices_constructed": 2900,
+                       "devices_with_undefined_limits": 1200}}
 
 REASON_KEY = {"count": "too-many-atoms", "distance": "too-close", "radius": "too-far", "dimension": "dimension",
               "filling": "overfilled"}
@@ -707,6 +710,14 @@ def gen_device_params(rng) -> dict:
         p["accepts_new_layouts"] = rng.random() < 0.5
     if nch and rng.random() < 0.3:
         p["channel_ids"] = [f"my_{i}" for i in range(nch)]
+    if not virtual and rng.random() < 0.35:
+        # a calibrated layout built from the device's own limits: min_layout_traps (or max) traps on a line through the
+        # origin, neighbours exactly d_min apart (or 1 um when d_min < 1e-3), the outermost within r_max
+        T_ = pick(rng, [p.get("min_layout_traps", 1), p.get("max_layout_traps") or 3, 2])
+        step = p["min_atom_distance"] if p["min_atom_distance"] >= 1e-3 else 1.0
+        xs = [(i - (T_ - 1) // 2) * step for i in range(T_)]
+        if T_ <= 80 and max(abs(xs[0]), abs(xs[-1])) <= p["max_radial_distance"]:
+            p["pre_calibrated_layouts"] = [[[x, 0.0] for x in xs]]
     return p
 
 
@@ -749,6 +760,11 @@ def case_construct(ctx, idx, rng):
         if p["kind"] == "physical":
             stage = "to_virtual"
             dev.to_virtual()
+            if p.get("pre_calibrated_layouts"):
+                ctx.count("devices_with_calibrated_layouts")
+                stage = "calibrated_register_layouts"
+                if len(dev.calibrated_register_layouts) != len(p["pre_calibrated_layouts"]):
+                    ctx.violation("construct", "calibrated_register_layouts lost a layout", "device-calibrated-layouts-lost")
     except Exception as e:
         flag = ":amp-undefined-detuning-defined" if amp_und_det_def and isinstance(e, TypeError) else ""
         ctx.violation("construct", f"valid {p['kind']} device parameters could not be constructed/rendered (stage "
